@@ -9,6 +9,7 @@ import (
 	"sync/atomic"
 	"time"
 	"unicode/utf8"
+	"verif/vt"
 
 	"github.com/gdamore/tcell/v2"
 	xenc "golang.org/x/text/encoding"
@@ -190,6 +191,12 @@ func C11(r *core.Run) {
 	c11pasteFocus(r)
 	c11pipeline(r)
 	c11trickle(r)
+	c11pasteLive(r)
+	c11pumps(r)
+	// a character (or a paste) split across two prompt reads while the main loop is held up
+	stallSplit(r, []byte("\xc3"), []byte("\xa9"), "two-byte character")
+	stallSplit(r, []byte("\xf0\x9f"), []byte("\x98\x80"), "four-byte character")
+	stallSplit(r, []byte("\x1b[200~h\xc3"), []byte("\xa9llo\x1b[201~"), "bracketed paste")
 	c11locales(r)
 }
 
@@ -510,6 +517,167 @@ func c11locales(r *core.Run) {
 		r.Case("locale|" + c.all + "|" + c.ctype + "|" + c.lang)
 		if got != c.want {
 			r.Violate("locale:charset", fmt.Sprintf("LC_ALL=%q LC_CTYPE=%q LANG=%q selects character set %q, expected %q", c.all, c.ctype, c.lang, got, c.want), nil)
+		}
+	}
+}
+
+// c11pasteLive: pasted text is delivered between a paste-start and a paste-end event whenever the
+// application has bracketed paste enabled. The terminal is modelled: it brackets a paste exactly
+// when the screen has put it into mode 2004, so a mode lost across Suspend/Resume shows.
+func c11pasteLive(r *core.Run) {
+	ti := Pristine("xterm-256color")
+	for k := 0; k < r.Pick(8, 80); k++ {
+		term := vt.New(30, 6)
+		var ls *liveScreen
+		var err error
+		ls, err = startScreen(ti, 30, 6, func(b []byte) { term.Feed(b) })
+		if err != nil {
+			r.Inconclusive(err.Error())
+			return
+		}
+		s := ls.s
+		enabled := k%4 != 3
+		var trace []string
+		ls.tty.BeginApp()
+		if enabled {
+			s.EnablePaste()
+			trace = append(trace, "EnablePaste")
+		}
+		for c := 0; c < k%3; c++ {
+			_ = s.Suspend()
+			if c%2 == 1 && enabled {
+				s.EnablePaste() // asked again while suspended
+				trace = append(trace, "Suspend", "EnablePaste", "Resume")
+			} else {
+				trace = append(trace, "Suspend", "Resume")
+			}
+			_ = s.Resume()
+		}
+		if k%5 == 4 && enabled {
+			s.DisablePaste()
+			s.EnablePaste()
+			trace = append(trace, "DisablePaste", "EnablePaste")
+		}
+		ls.tty.EndApp()
+		var mode bool
+		ls.tty.Locked(func() { mode = term.Modes[2004] })
+		text := []string{"héllo wörld", "日本語 😀", "plain", "a\tb"}[k%4]
+		wait := ls.startPoll(0x1d)
+		in := []byte(text)
+		if mode {
+			in = []byte("\x1b[200~" + text + "\x1b[201~")
+		}
+		for o := 0; o < len(in); o += 100 {
+			ls.tty.Feed(in[o:min(o+100, len(in))])
+		}
+		ls.tty.Feed([]byte{0x1d})
+		got, ok := wait()
+		ls.judgeSentinel(r, ok, "live paste")
+		ls.fini()
+		r.Case(fmt.Sprintf("pastelive|%d", k))
+		if !ok {
+			continue
+		}
+		r.Count("live_paste_rounds", 1)
+		var want []NEv
+		if enabled {
+			want = append(want, NEv{T: "paste", Flag: true})
+		}
+		for _, rn := range text {
+			if rn == '\t' {
+				want = append(want, NEv{T: "key", Key: tcell.KeyTab, Rune: '\t'})
+				continue
+			}
+			want = append(want, NEv{T: "key", Key: tcell.KeyRune, Rune: rn})
+		}
+		if enabled {
+			want = append(want, NEv{T: "paste", Flag: false})
+		}
+		if !evsEq(got, want) {
+			r.Violate("paste:live", fmt.Sprintf("after %v the terminal is in bracketed-paste mode: %v; the user pastes %q: delivered %s, expected %s", trace, mode, text, evsStr(got), evsStr(want)), nil)
+			return
+		}
+	}
+}
+
+// c11pumps: text typed while the application runs ChannelEvents pumps that it cancels (quit)
+// and restarts between lines: every character of every line arrives, once.
+func c11pumps(r *core.Run) {
+	ti := Pristine("xterm-256color")
+	for k := 0; k < r.Pick(4, 40); k++ {
+		ls, err := startScreen(ti, 30, 6, nil)
+		if err != nil {
+			r.Inconclusive(err.Error())
+			return
+		}
+		lines := []string{"first: héllo", "second: wörld", "third: 日本語 😀", "fourth"}[:2+k%3]
+		verdict := ""
+		for li, line := range lines {
+			ch := make(chan tcell.Event, 64)
+			quit := make(chan struct{})
+			pumpDone := make(chan struct{})
+			var pumpGid atomic.Int64
+			go func() { pumpGid.Store(curGoid()); ls.s.ChannelEvents(ch, quit); close(pumpDone) }()
+			if k%2 == 1 {
+				for i := 0; i < 300; i++ { // the pump is idle, waiting for an event
+					runtime.Gosched()
+				}
+			}
+			ls.tty.Feed([]byte(line + "\x1d"))
+			var got []rune
+			deadline := time.After(20 * time.Second)
+			done := false
+			for !done && verdict == "" {
+				select {
+				case ev, open := <-ch:
+					if !open {
+						verdict = fmt.Sprintf("the channel of pump %d was closed without quit or Fini", li+1)
+						break
+					}
+					if kev, isKey := ev.(*tcell.EventKey); isKey {
+						if kev.Key() == tcell.KeyCtrlRightSq {
+							done = true
+						} else if kev.Key() == tcell.KeyRune {
+							got = append(got, kev.Rune())
+						}
+					}
+				case <-deadline:
+					if lost, w := ls.sentinelLost(); lost {
+						verdict = fmt.Sprintf("line %d: only %q of %q arrived and the library is idle (%s)", li+1, string(got), line, w)
+					} else {
+						verdict = "INCONCLUSIVE"
+					}
+				}
+			}
+			if verdict == "" && string(got) != line {
+				verdict = fmt.Sprintf("line %d typed as %q arrived as %q", li+1, line, string(got))
+			}
+			close(quit)
+			if verdict == "" {
+				// the cancelled pump returns (bounded: it only has to notice quit)
+				select {
+				case <-pumpDone:
+				case <-time.After(20 * time.Second):
+					// structural: the pump's goroutine is parked inside ChannelEvents although quit is closed
+					if goroutineParkedIn("ChannelEvents", pumpGid.Load()) {
+						verdict = fmt.Sprintf("pump %d did not return after quit was closed: its goroutine is parked inside ChannelEvents", li+1)
+					} else {
+						verdict = "INCONCLUSIVE"
+					}
+				}
+			}
+			if verdict != "" {
+				break
+			}
+		}
+		ls.fini()
+		r.Case(fmt.Sprintf("pumps|%d", k))
+		r.Count("pump_rounds", 1)
+		if verdict == "INCONCLUSIVE" {
+			r.Inconclusive("pump round: watchdog")
+		} else if verdict != "" {
+			r.Violate("pipeline:channelevents-restart", "ChannelEvents pumps cancelled and restarted between lines: "+verdict, nil)
+			return
 		}
 	}
 }
